@@ -126,7 +126,7 @@ func runScript(s *script) result {
 	sleepReleased(60 * time.Millisecond) // everything the setup armed is stopped well before the script starts
 	armedReal := false                   // a script timer is armed and will legitimately expire during the final wait
 	for i, o := range s.Ops {
-		armedReal = o.Op == "Arm"
+		armedReal = o.Op == "Arm" || o.Op == "ArmPar"
 		if o.Gap == "soon" {
 			time.Sleep(soon)
 		}
@@ -139,13 +139,32 @@ func runScript(s *script) result {
 			ts := l.add("ArmStart", 0, d)
 			c.VerifArmTimer(0, time.Duration(d)*time.Millisecond)
 			l.add("ArmEnd", ts, d)
+		case "ArmPar":
+			// two goroutines arm at the same time: a short timer of type 0 and a long one of type 1; the timer type the
+			// connection shows afterwards tells which of them was published last - that one is the armed timer
+			ts1 := l.add("ArmStart", 0, shortMs)
+			ts2 := l.add("ArmStart", 0, longMs)
+			start := make(chan struct{})
+			var wg sync.WaitGroup
+			wg.Add(2)
+			go func() { defer wg.Done(); <-start; c.VerifArmTimer(0, shortMs*time.Millisecond) }()
+			go func() { defer wg.Done(); <-start; c.VerifArmTimer(1, longMs*time.Millisecond) }()
+			close(start)
+			wg.Wait()
+			if c.VerifSnapshot().TimerType == 1 {
+				l.add("ArmEnd", ts1, shortMs)
+				l.add("ArmEnd", ts2, longMs)
+			} else {
+				l.add("ArmEnd", ts2, longMs)
+				l.add("ArmEnd", ts1, shortMs)
+			}
 		case "Stop":
 			l.add("StopStart", 0, 0)
 			c.VerifStopTimer()
 			l.add("StopEnd", 0, 0)
 		case "Expire":
 			d := shortMs
-			if o.Dur == "long" {
+			if o.Dur == "long" || o.Dur == "par" {
 				d = longMs
 			}
 			sleepReleased(time.Duration(d+60) * time.Millisecond)
